@@ -107,7 +107,7 @@ def hazards(ctx: Ctx, funcs, clause: str = "S0"):
     from rules.sentinel import SentinelTaint
     from rules.trunc import TruncAnalysis
     from rules.strided import absolute_offset_views
-    from rules.negzero import negative_length_bounds
+    from rules.negzero import negative_length_bounds, possibly_negative_stops
     from rules.negdim import raw_negative_dim_uses
     from rules.viewparam import merging_views_of_parameters
     from rules.vacuous import vacuous_rank_tests
@@ -207,6 +207,15 @@ def hazards(ctx: Ctx, funcs, clause: str = "S0"):
                    (f"`{u(bnz[0]['node'])}` ends at `{bnz[0]['bound']}`, the negated length of a string that may be empty: "
                     f"for length 0 this is `[..:0]`, the empty sequence, not the whole tail") if bnz else "", rel,
                    bnz[0]["node"].lineno if bnz else f.line, nontrivial=False)
+        ps = possibly_negative_stops(f)
+        if ps:
+            bps = [x for x in ps if not x["ok"]]
+            col.ob("G28", clause, f"{where}::slice-stops-cannot-go-negative", not bps,
+                   (f"`{u(bps[0]['node'])[:60]}` stops at `{bps[0]['bound']}`: a data-derived size minus an amount that grows with an "
+                    f"option of the call. Once the amount exceeds the size the stop is negative, which Python reads as 'all but the "
+                    f"last k' - the operands then disagree in length (RuntimeError / IndexError) instead of the result being empty"
+                    + (f" ({len(bps)} such slices)" if len(bps) > 1 else "")) if bps else "", rel,
+                   bps[0]["node"].lineno if bps else f.line, sample=[u(x["node"])[:50] for x in ps], nontrivial=False)
         sv = absolute_offset_views(f)
         if sv:
             bsv = [x for x in sv if not x["ok"]]
